@@ -26,6 +26,8 @@ TNext ==
      \/ /\ Ev.op = "spawn_push"
         /\ stack' = Append(SetTop(stack, [Top(stack) EXCEPT !.spawned = @ + Ev.n]), Entry(Append(Top(stack).seed, Top(stack).spawned + Ev.arg)))
         /\ ctx' = ctx
+     \/ /\ Ev.op = "set_state"      \* setState(): the module state is replaced by a pickled one (resume); the top is what was logged
+        /\ stack' = SetTop(stack, Ent(Ev)) /\ ctx' = ctx
      \/ /\ Ev.op = "pop" /\ Len(stack) > 1 /\ stack' = SubSeq(stack, 1, Len(stack) - 1) /\ ctx' = ctx
      \/ /\ Ev.op = "draw" /\ stack' = SetTop(stack, [Top(stack) EXCEPT !.drawn = @ + Ev.n]) /\ ctx' = ctx
      \/ /\ Ev.op = "enter" /\ ctx' = Append(ctx, [depth |-> Len(stack), top |-> Top(stack)]) /\ stack' = Append(stack, Entry(<<Ev.arg>>))
